@@ -6,6 +6,7 @@ CONSTANTS
   Mode = "geometry"
   GeomRefs = {"allC", "allG", "CG"}
   MaxFrags = 1
+  DistMode = "zero"
   Variant = "dove_unsafe"
 INVARIANT Inv_C14_OnTarget
 INVARIANT Inv_C14_DoveSafe
